@@ -946,6 +946,33 @@ func streamCont(o *Out, r *rand.Rand, n int, thorough bool) {
 			o.Fail(Failure{Oracle: "struct-fields", Key: "cont-struct-template", Input: c.src, Detail: fmt.Sprintf("expected %s, got %s (err %v, panic %v)", c.want, got, rerr, p)})
 		}
 	}
+	// strings of several bytes per character: len, slicing and the store at index len all count BYTES, as Go's model of a string does
+	for _, str := range []string{"né", "日本", "aé", "ü", "a\u00e9b", "plain", "€uro", "x\U0001F600"} {
+		n := len(str)
+		for _, c := range []struct{ src, want string }{
+			{"len(s)", fmt.Sprintf("int64:%d", n)},
+			{"s[0:len(s)]", "string:" + hexOf(str)},
+			{"s[len(s)-1:]", "string:" + hexOf(str[n-1:])},
+			{"s[:1] + s[1:]", "string:" + hexOf(str)},
+			{"t = s\nt[len(t)] = \"!\"\nt", "string:" + hexOf(str+"!")},
+			{"n = 0\nfor i = 0; i < len(s); i++ {\nn += len(s[i:i+1])\n}\nn", fmt.Sprintf("int64:%d", n)},
+			{"len(s + s) == 2 * len(s)", "bool:true"},
+			{"l = [s]\nlen(l[0])", fmt.Sprintf("int64:%d", n)},
+		} {
+			e := env.NewEnv()
+			_ = e.Define("s", str)
+			res, rerr, p := execGuard(e, c.src)
+			got := "ERROR"
+			if rerr == nil {
+				got = renderTyped(reflect.ValueOf(res))
+			}
+			o.Sum.Evaluations++
+			o.Sum.Hist["multibyte-string"]++
+			if p != nil || got != c.want {
+				o.Fail(Failure{Oracle: "string-is-go-string", Key: "cont-multibyte-string:" + c.src, Input: fmt.Sprintf("s = %q\n%s", str, c.src), Detail: fmt.Sprintf("Go's string model gives %s, got %s (err %v, panic %v)", c.want, got, rerr, p)})
+			}
+		}
+	}
 	// typed containers: a store converts the value as Go would or fails leaving the old content
 	typed := []struct {
 		name string
